@@ -246,6 +246,9 @@ SCENARIOS.append(field_value_scenario())
 SCENARIOS.append(("Self-in-closures-nested-in-static-methods", '#[constructor(new)]\nclass Widget {\n  #[static] fn direct() { return Self; }\n  #[static] fn via_lambda() { return (|| Self)(); }\n  #[static] fn via_lambda2() { return (|| (|| Self)())(); }\n  #[static] fn via_fn() { fn inner() { return Self; } return inner(); }\n  #[static] fn later() { return || Self; }\n  #[static] fn make_later() { return || Self.new(); }\n  fn kind(self) { return "widget"; }\n}\n#[constructor(new), derive(Widget)]\nclass Button { fn kind(self) { return "button"; } }\n#[constructor(new), derive(Button)]\nclass Toggle { fn kind(self) { return "toggle"; } }\nvar b = Button.new();\nvar t = Toggle.new();\nfor recv in [Widget.new(), b, t] {\n  print(recv.direct()); print(recv.via_lambda()); print(recv.via_lambda2()); print(recv.via_fn()); print(recv.later()()); print(recv.make_later()().kind());\n  var bound = recv.via_lambda; print(bound());\n  var bound2 = recv.later; print(bound2()());\n}\nprint(Widget.direct()); print(Widget.via_lambda()); print(Widget.via_fn()); print(Widget.later()());\nvar Kept = Widget;\nvar k1 = Kept.later();\nvar k2 = Kept.make_later();\nvar kb = b.make_later();\nWidget = nil;\nButton = "rebound";\nprint(k1()); print(k2().kind()); print(kb().kind()); print(Kept.via_lambda()); print(Kept.via_fn()); print(b.via_lambda2()); print(t.via_fn());\n{\n  #[constructor(new)]\n  class Local { #[static] fn me() { return || Self; } #[static] fn mk() { return (|| Self.new())(); } fn kind(self) { return "local"; } }\n  var f = Local.me();\n  var L2 = Local;\n  print(f() == L2);\n  print(Local.mk().kind());\n}\n', ['<class Widget>', '<class Widget>', '<class Widget>', '<class Widget>', '<class Widget>', 'widget', '<class Widget>', '<class Widget>', '<class Button>', '<class Button>', '<class Button>', '<class Button>', '<class Button>', 'button', '<class Button>', '<class Button>', '<class Toggle>', '<class Toggle>', '<class Toggle>', '<class Toggle>', '<class Toggle>', 'toggle', '<class Toggle>', '<class Toggle>', '<class Widget>', '<class Widget>', '<class Widget>', '<class Widget>', '<class Widget>', 'widget', 'button', '<class Widget>', '<class Widget>', '<class Button>', '<class Toggle>', 'true', 'local']))
 # the member calls the interpreter makes on its own (the `iter()` and `next()` of a for loop) are member accesses like any other: own fields
 # first (a bound method of ANOTHER object, a closure), then the nearest method; a class without the method but an instance with the field
+# a method taken as a value and handed to a built-in that will call it (Fiber.new, map, filter, reduce, a fiber that receives it) is
+# either refused or called with the receiver it was taken from - for instance methods, super methods, static methods, constructors, natives
+SCENARIOS.append(("callables-handed-to-built-ins-keep-their-receiver", '#[constructor(new)] class A { fn who(self) { return "A:" + self.tag; } fn add(self, x) { return self.tag + String.from(x); } #[static] fn st(x) { return "st" + String.from(x); } }\n#[derive(A)] class B { #[constructor] fn new(self) { super.new(); } fn who(self) { return "B>" + super.who(); } fn sup(self) { return super.add; } }\nvar a = A.new(); a.tag = "a"; var b = B.new(); b.tag = "b";\nfn attempt(f) { try { print(f()); } catch e { print(type(e)); } }\nvar callables = [a.who, b.who, a.add, b.sup(), A.st, b.st, [1, 2].len, "xy".len];\nattempt(|| Fiber.new(a.who).call());\nattempt(|| Fiber.new(b.who).call());\nattempt(|| Fiber.new(a.add).call(1));\nattempt(|| Fiber.new(b.sup()).call(2));\nattempt(|| Fiber.new(A.st).call(3));\nattempt(|| Fiber.new([1, 2].len).call());\nattempt(|| Fiber.new(A.new).call());\nattempt(|| Fiber.new(|| a.who()).call());\nattempt(|| [1, 2].iter().map(a.add).collect());\nattempt(|| [1, 2].iter().map(b.sup()).collect());\nattempt(|| [1, 2].iter().map(A.st).collect());\nattempt(|| [1, 2].iter().filter(a.add).collect());\nattempt(|| [1, 2].iter().reduce(|acc, x| acc + a.add(x), ""));\nattempt(|| [[1], [2, 3]].iter().map([9].len).collect());\nvar held = Fiber.new(|f| { var r = f(7); Fiber.yield(r); return f(8); });\nattempt(|| held.call(b.sup()));\nattempt(|| held.call());\n', ['<class TypeError>', '<class TypeError>', '<class TypeError>', '<class TypeError>', '<class TypeError>', '<class TypeError>', '<class TypeError>', 'A:a', '[a1, a2]', '[b1, b2]', '[st1, st2]', '[1, 2]', 'a1a2', '<class TypeError>', 'b7', 'b8']))
 SCENARIOS.append(("implicit-protocol-calls-see-fields-first", '#[constructor(new)]\nclass Seq { fn iter(self) { return self; } fn next(self) { return StopIter.new(); } }\nvar src = [10, 20, 30].iter();\nvar a = Seq.new();\na.next = src.next;\nfor v in a { print(v); }\nvar b = Seq.new();\nvar n = 0;\nb.next = || { n = n + 1; if n > 2 { return StopIter.new(); } return n; };\nfor v in b { print(v); }\nprint(type(b.next()) == StopIter);\nvar c = Seq.new();\nc.iter = || [7, 8].iter();\nfor v in c { print(v); }\nfor v in Seq.new() { print("never"); }\n#[constructor(new)]\nclass Bare {}\nvar d = Bare.new();\nvar k = 0;\nd.iter = || d;\nd.next = || { k = k + 1; if k > 2 { return StopIter.new(); } return k * 100; };\nfor v in d { print(v); }\n#[constructor(new), derive(Seq)]\nclass Sub { fn next(self) { self.count = self.count + 1; if self.count > 1 { return StopIter.new(); } return "sub"; } }\nvar e = Sub.new();\ne.count = 0;\nfor v in e { print(v); }\nvar f = Sub.new();\nf.count = 0;\nf.next = a.next;\nfor v in f { print("f " + String.from(v)); }\nprint(f.count);\n',
                   ["10", "20", "30", "1", "2", "true", "7", "8", "100", "200", "sub", "0"]))
 
